@@ -26,6 +26,7 @@ func main() {
 	selftest := flag.Bool("selftest", false, "run fixtures and in-situ controls only")
 	dump := flag.String("dump", "", "debug: print the SSA of the named function (as the checker sees it)")
 	flag.Parse()
+	loadJSONControls(*verif)
 	if t := os.Getenv("VERIF_TIER"); t != "" && *tier == "" {
 		*tier = t
 	}
